@@ -82,7 +82,7 @@ def zernike_to_noll(n, m):
         nn, mm = noll_to_zernike(j)
         if nn == n and mm == m:
             return j
-    raise ValueError('Could not find noll index for (%d,%d)' % n, m)
+    raise ValueError('Could not find noll index for (%d,%d)' % (n, m))
 
 def _zernike_radial_reduced(n, m, r_sq, cache=None):
     '''The radial Zernike polynomial divided by r**m, as a polynomial in r_sq = r**2.
